@@ -278,7 +278,7 @@ func propC06(c *Ctx) {
 			r := p.Ret[0].Key()
 			peek := "(collections.Sequence).Peek(k.NextL1Sequence, ctx).0"
 			isDef := p.HasFact(len(p.Events), func(a *Term, pol bool) bool { return pol && eqAtom(a, peek, "0") })
-			notDef := p.HasFact(len(p.Events), func(a *Term, pol bool) bool { return !pol && eqAtom(a, peek, "0") })
+			notDef := p.nonZeroOn(len(p.Events), peek)
 			if !isDef && !notDef {
 				o.Fail(c.W.Pos(g.Pos()), "returns without distinguishing the fresh counter (collections default 0) from a stored one: a fresh chain would report "+r+" instead of "+def, c.Dump(p, -1))
 			}
@@ -779,10 +779,7 @@ func propC07(c *Ctx) {
 					cred := p.HasFact(i, func(at *Term, pol bool) bool {
 						return pol && at.Op == "extract" && at.Name == "0" && strings.HasSuffix(at.Args[0].Name, "safeDepositToken")
 					})
-					data := p.HasFact(i, func(at *Term, pol bool) bool {
-						rf, ok := factRel(at, pol)
-						return ok && ((rf.X.Key() == "0" && rf.Y.Key() == "builtin.len(req.Data)" && rf.Rel == rLT) || (rf.Y.Key() == "0" && rf.X.Key() == "builtin.len(req.Data)" && rf.Rel == rGT))
-					})
+					data := p.nonZeroOn(i, "builtin.len(req.Data)") // a length: != 0 is > 0
 					if !cred || !data {
 						o7.Fail(c.evPos(ev), fmt.Sprintf("hook reachable without credited=%v / non-empty data=%v", cred, data), c.Dump(p, i))
 					}
@@ -1398,8 +1395,18 @@ func callRoles(ev *Event, roles map[string]string) map[string]*Term {
 	if sig.Recv() != nil {
 		off = 1
 	}
+	// the call term's arguments are in the pinned parameter order when the callee's
+	// parameters were reordered (canon.go)
+	var perm []int
+	if ci := canonOf(callee); ci != nil && len(ci.perm) == sig.Params().Len() {
+		perm = ci.perm
+	}
 	for i := 0; i < sig.Params().Len() && i+off < len(ev.Call.Args); i++ {
-		pt := sig.Params().At(i).Type()
+		pi := i
+		if perm != nil {
+			pi = perm[i]
+		}
+		pt := sig.Params().At(pi).Type()
 		a := ev.Call.Args[i+off]
 		if r, ok := roles[typeName(pt)]; ok {
 			out[r] = a
